@@ -2,6 +2,7 @@
 from __future__ import annotations
 import ast
 import z3
+import ast
 from .values import *
 from .source import Repo
 from . import engine as E
@@ -153,6 +154,8 @@ class Interp(HeapMixin, OpsMixin, StmtMixin, CallMixin):
                         run.inputs[str(c)] = c
                         run.assume(z3.And(c >= 0, c <= n))
                         r.cnt[cn] = c
+                    self.counter_axioms(r, n)
+                    r.preds = [ast.unparse(ast.parse(t, mode="eval").body) for t in self.contract.elem_facts.get(ty[1][1], [])]
                 return r
             return self.sym_ref(name, "list", None, mk)
         if k == "dict":
@@ -196,6 +199,21 @@ class Interp(HeapMixin, OpsMixin, StmtMixin, CallMixin):
         if k == "type":
             return VAny(z3.Const(name, AnySort), "type")
         raise E.Unsupported(f"fresh: type {ty}")
+
+    def counter_axioms(self, r, n):
+        """declared relations between the ghost counters of one list (e.g. the 4-way partition identity of an enum tag)"""
+        if self.contract is None:
+            return
+        for cls, ex in self.contract.counter_axioms:
+            if r.elem[0] == "obj" and r.elem[1] == cls and all(k in ex for k in []):
+                env = {k: VInt(v) for k, v in r.cnt.items()}
+                env["n"] = VInt(n)
+                node = ast.parse(ex, mode="eval").body
+                self.pure += 1
+                try:
+                    self.run.assume(self.truthy(self.eval(node, E.Frame("<spec>", None, env, None, "axiom"))))
+                finally:
+                    self.pure -= 1
 
     def sym_ref(self, name, kind, cls, factory):
         run = self.run
